@@ -14,6 +14,7 @@ import (
 	"time"
 
 	"github.com/Comcast/sheens/core"
+	"github.com/Comcast/sheens/interpreters"
 	"github.com/Comcast/sheens/match"
 
 	"verif/fw"
@@ -386,12 +387,72 @@ func derived(cfg fw.Config, rec *fw.Rec, round int) {
 	}
 }
 
+// extShared: one spec compiled with the standard interpreter map whose actions and guards
+// use the extended interpreter's helpers (_.match, _.cronNext, _.randstr), walked by many
+// goroutines on distinct states.  The race detector watches the helpers' shared state; the
+// deterministic part of every result must equal the solo result.
+func extShared(cfg fw.Config, rec *fw.Rec, round int) {
+	ext := func(src string) *core.ActionSource {
+		return &core.ActionSource{Interpreter: "ecmascript-ext", Source: src}
+	}
+	spec := &core.Spec{Name: "extshared", Nodes: map[string]*core.Node{
+		"start": {ActionSource: ext(`var bs = _.bindings; var r = _.match({"k": "?v", "l": ["?e"]}, {"k": bs.n, "l": [1, 2]}, {}); bs.matches = r.length; bs.first = r.length > 0 ? r[0]["?v"] : null; return bs;`),
+			Branches: &core.Branches{Type: "bindings", Branches: []*core.Branch{{GuardSource: ext(`var bs = _.bindings; var t = _.cronNext("0 */5 * * * * *"); bs.cronOk = (typeof t === 'string' && t.length >= 20); var t2 = _.cronNext("0 0 12 * * * *"); bs.cronOk = bs.cronOk && t2.length >= 20; return bs;`), Target: "n1"}}}},
+		"n1": {ActionSource: ext(`var bs = _.bindings; bs.rand = _.randstr().length; var r = _.match({"?p": "?q"}, {"a": bs.n}, bs); bs.pm = r.length; return bs;`),
+			Branches: &core.Branches{Type: "bindings", Branches: []*core.Branch{{Target: "done"}}}},
+		"done": {},
+	}}
+	if err := spec.Compile(context.Background(), interpreters.Standard(), true); err != nil {
+		rec.Inconclusive("extended-interpreter spec: " + err.Error())
+		return
+	}
+	walk := func(g int) string {
+		w, err := spec.Walk(context.Background(), &core.State{NodeName: "start", Bs: match.Bindings{"n": float64(g)}}, nil, &core.Control{Limit: 10}, nil)
+		if err != nil || w == nil || w.To() == nil {
+			return fmt.Sprint("error: ", err)
+		}
+		return w.To().NodeName + "/" + fw.Canon(w.To().Bs)
+	}
+	G := 16
+	solo := make([]string, G)
+	for g := range solo {
+		solo[g] = walk(g)
+	}
+	var wg sync.WaitGroup
+	var bad int32
+	for g := 0; g < G; g++ {
+		wg.Add(1)
+		go func(g int) {
+			defer wg.Done()
+			for k := 0; k < 25; k++ {
+				var got string
+				if rec.Guard("C12:ext", "walks using the extended interpreter's helpers", func() { got = walk(g) }) {
+					atomic.AddInt32(&bad, 1)
+					return
+				}
+				if got != solo[g] {
+					if atomic.AddInt32(&bad, 1) == 1 {
+						rec.Violation("C12:concurrent-differs-from-solo:ext", fmt.Sprintf("machine %d, walked concurrently over a spec that uses _.match / _.cronNext / _.randstr, gives %s; alone it gives %s", g, fw.Short(got), fw.Short(solo[g])), "extended interpreter")
+					}
+					return
+				}
+			}
+		}(g)
+	}
+	wg.Wait()
+	rec.Eval(G * 25)
+	if bad == 0 {
+		rec.Bucket("shared_ext_rounds_equal_to_solo")
+		rec.Nontrivial(fmt.Sprintf("ext-%d-%d", cfg.Batch, round))
+	}
+}
+
 func Run(cfg fw.Config, rec *fw.Rec) {
 	procs := []int{2, 4, 16}[cfg.Batch%3]
 	runtime.GOMAXPROCS(procs)
 	rec.Bucket(fmt.Sprintf("gomaxprocs_%d", procs))
-	rec.Rule = "shared part: one compiled spec object (random 5-node spec plus property-variable, inequality, @var-target, guarded and permanent-binding branches; native and ECMAScript) walked by 16/32/64 goroutines x 6 walks on distinct machine states, each result compared with the solo result computed beforehand, structural snapshot of the spec compared afterwards; swap part: 16 walkers over an UpdatableSpec while a swapper installs one of 4 versions whose every action, guard and branch target stamps its version; each walk must carry stamps of exactly one version; derived part: the swapper derives each next version from the installed one with Spec.Copy, re-stamps and compiles it while 8 walkers walk the version they obtained (each version stamps through a helper it installs on a built-in object if none is there, so anything an execution inherits from another version's execution shows as a foreign stamp); child built with -race, GOMAXPROCS 2/4/16 by batch; non-trivial = round in which every concurrent result agreed; distinct by spec / round"
-	rec.Required = []string{"shared_rounds_equal_to_solo", "shared_native", "shared_ecma", "swap_rounds_coherent", "swap_walks_straddling_a_swap", "derived_rounds_coherent"}
+	rec.Rule = "shared part: one compiled spec object (random 5-node spec plus property-variable, inequality, @var-target, guarded and permanent-binding branches; native and ECMAScript) walked by 16/32/64 goroutines x 6 walks on distinct machine states, each result compared with the solo result computed beforehand, structural snapshot of the spec compared afterwards; swap part: 16 walkers over an UpdatableSpec while a swapper installs one of 4 versions whose every action, guard and branch target stamps its version; each walk must carry stamps of exactly one version; derived part: the swapper derives each next version from the installed one with Spec.Copy, re-stamps and compiles it while 8 walkers walk the version they obtained (each version stamps through a helper it installs on a built-in object if none is there, so anything an execution inherits from another version's execution shows as a foreign stamp); ext part: 16 goroutines x 25 walks over a spec whose actions and guards use the extended interpreter's _.match, _.cronNext (two fixed expressions) and _.randstr, compiled with the standard interpreter map; child built with -race, GOMAXPROCS 2/4/16 by batch; non-trivial = round in which every concurrent result agreed; distinct by spec / round"
+	rec.Required = []string{"shared_rounds_equal_to_solo", "shared_native", "shared_ecma", "swap_rounds_coherent", "swap_walks_straddling_a_swap", "derived_rounds_coherent", "shared_ext_rounds_equal_to_solo"}
 	rec.Assume = []string{"the race detector reports only races that occur in the interleavings produced; absence over N runs is evidence, not proof", "a processing call obtains the spec once via Specter.Spec(), as sio and mcrew do"}
 	rounds := cfg.Pick(24, 60)
 	for round := 0; round < rounds; round++ {
@@ -402,5 +463,8 @@ func Run(cfg fw.Config, rec *fw.Rec) {
 	}
 	for round := 0; round < cfg.Pick(2, 6); round++ {
 		derived(cfg, rec, round)
+	}
+	for round := 0; round < cfg.Pick(3, 10); round++ {
+		extShared(cfg, rec, round)
 	}
 }
